@@ -65,23 +65,29 @@ func (s *MultipartRequest) UnmarshalBinary(data []byte) error {
 	var req util.Message
 	switch s.Type {
 	case MultipartType_Aggregate:
-		req = s.Body.(*AggregateStatsRequest)
+		req = NewAggregateStatsRequest()
 	case MultipartType_Desc:
-		break
+		// the request body is empty
+		return nil
 	case MultipartType_Flow:
-		req = s.Body.(*FlowStatsRequest)
+		req = NewFlowStatsRequest()
 	case MultipartType_Port:
-		req = s.Body.(*PortStatsRequest)
+		req = NewPortStatsRequest()
 	case MultipartType_Table:
-		break
+		// the request body is empty
+		return nil
 	case MultipartType_Queue:
-		req = s.Body.(*QueueStatsRequest)
+		req = NewQueueStatsRequest()
 	case MultipartType_Experimenter:
 		break
 	}
 	if req == nil {
 		return fmt.Errorf("unsupported MultipartRequest type: %d", s.Type)
 	}
+	if err = req.UnmarshalBinary(data[n:]); err != nil {
+		return err
+	}
+	s.Body = req
 	return err
 }
 
